@@ -101,6 +101,7 @@ struct Addrs {
     has_len: bool,
     hdr_align: usize,
     slice_align: usize,
+    has_hdr: bool,
 }
 
 fn addrs<H: Shape, T: Shape>(h: &Held<H, T>) -> Addrs {
@@ -110,11 +111,11 @@ fn addrs<H: Shape, T: Shape>(h: &Held<H, T>) -> Addrs {
     match h {
         Held::Sized(a) => {
             let d = &**a as *const T as usize;
-            Addrs { data: d, hdr: d, len: 0, slice: d, as_ptr: Arc::as_ptr(a) as usize, heap_ptr: a.heap_ptr() as usize, data_align: ta, has_len: false, hdr_align: 1, slice_align: ta }
+            Addrs { data: d, hdr: d, len: 0, slice: d, as_ptr: Arc::as_ptr(a) as usize, heap_ptr: a.heap_ptr() as usize, data_align: ta, has_len: false, hdr_align: 1, slice_align: ta, has_hdr: false }
         }
         Held::USized(a) => {
             let d = &**a as *const T as usize;
-            Addrs { data: d, hdr: d, len: 0, slice: d, as_ptr: d, heap_ptr: 0, data_align: ta, has_len: false, hdr_align: 1, slice_align: ta }
+            Addrs { data: d, hdr: d, len: 0, slice: d, as_ptr: d, heap_ptr: 0, data_align: ta, has_len: false, hdr_align: 1, slice_align: ta, has_hdr: false }
         }
         Held::HS(a) => {
             let d = &**a as *const HeaderSlice<H, [T]> as *const u8 as usize;
@@ -126,7 +127,7 @@ fn addrs<H: Shape, T: Shape>(h: &Held<H, T>) -> Addrs {
                 as_ptr: Arc::as_ptr(a) as *const u8 as usize,
                 heap_ptr: a.heap_ptr() as usize,
                 data_align: mx(ha, ta),
-                has_len: false, hdr_align: ha, slice_align: ta }
+                has_len: false, hdr_align: ha, slice_align: ta, has_hdr: true }
         }
         Held::Thin(a) => {
             let d = &**a as *const _ as *const u8 as usize;
@@ -138,35 +139,35 @@ fn addrs<H: Shape, T: Shape>(h: &Held<H, T>) -> Addrs {
                 as_ptr: a.as_ptr() as usize,
                 heap_ptr: a.heap_ptr() as usize,
                 data_align: mx(mx(ha, 8), ta),
-                has_len: true, hdr_align: ha, slice_align: ta }
+                has_len: true, hdr_align: ha, slice_align: ta, has_hdr: true }
         }
         Held::SizedUninit(a) => {
             let d = &**a as *const MaybeUninit<T> as usize;
-            Addrs { data: d, hdr: d, len: 0, slice: d, as_ptr: d, heap_ptr: 0, data_align: ta, has_len: false, hdr_align: 1, slice_align: ta }
+            Addrs { data: d, hdr: d, len: 0, slice: d, as_ptr: d, heap_ptr: 0, data_align: ta, has_len: false, hdr_align: 1, slice_align: ta, has_hdr: false }
         }
         Held::ASizedUninit(a) => {
             let d = &**a as *const MaybeUninit<T> as usize;
-            Addrs { data: d, hdr: d, len: 0, slice: d, as_ptr: Arc::as_ptr(a) as usize, heap_ptr: a.heap_ptr() as usize, data_align: ta, has_len: false, hdr_align: 1, slice_align: ta }
+            Addrs { data: d, hdr: d, len: 0, slice: d, as_ptr: Arc::as_ptr(a) as usize, heap_ptr: a.heap_ptr() as usize, data_align: ta, has_len: false, hdr_align: 1, slice_align: ta, has_hdr: false }
         }
         Held::HSUninit(a) => {
             let d = &**a as *const _ as *const u8 as usize;
-            Addrs { data: d, hdr: &a.header as *const H as usize, len: 0, slice: a.slice.as_ptr() as usize, as_ptr: d, heap_ptr: 0, data_align: mx(ha, ta), has_len: false, hdr_align: ha, slice_align: ta }
+            Addrs { data: d, hdr: &a.header as *const H as usize, len: 0, slice: a.slice.as_ptr() as usize, as_ptr: d, heap_ptr: 0, data_align: mx(ha, ta), has_len: false, hdr_align: ha, slice_align: ta, has_hdr: true }
         }
         Held::Slice(a) => {
             let d = (**a).as_ptr() as usize;
-            Addrs { data: d, hdr: d, len: 0, slice: d, as_ptr: Arc::as_ptr(a) as *const T as usize, heap_ptr: a.heap_ptr() as usize, data_align: ta, has_len: false, hdr_align: 1, slice_align: ta }
+            Addrs { data: d, hdr: d, len: 0, slice: d, as_ptr: Arc::as_ptr(a) as *const T as usize, heap_ptr: a.heap_ptr() as usize, data_align: ta, has_len: false, hdr_align: 1, slice_align: ta, has_hdr: false }
         }
         Held::SliceUninit(a) => {
             let d = (**a).as_ptr() as usize;
-            Addrs { data: d, hdr: d, len: 0, slice: d, as_ptr: d, heap_ptr: 0, data_align: ta, has_len: false, hdr_align: 1, slice_align: ta }
+            Addrs { data: d, hdr: d, len: 0, slice: d, as_ptr: d, heap_ptr: 0, data_align: ta, has_len: false, hdr_align: 1, slice_align: ta, has_hdr: false }
         }
         Held::HStr(a) => {
             let d = &**a as *const _ as *const u8 as usize;
-            Addrs { data: d, hdr: &a.header as *const H as usize, len: 0, slice: a.slice.as_ptr() as usize, as_ptr: Arc::as_ptr(a) as *const u8 as usize, heap_ptr: a.heap_ptr() as usize, data_align: ha, has_len: false, hdr_align: ha, slice_align: 1 }
+            Addrs { data: d, hdr: &a.header as *const H as usize, len: 0, slice: a.slice.as_ptr() as usize, as_ptr: Arc::as_ptr(a) as *const u8 as usize, heap_ptr: a.heap_ptr() as usize, data_align: ha, has_len: false, hdr_align: ha, slice_align: 1, has_hdr: true }
         }
         Held::Str(a) => {
             let d = (**a).as_ptr() as usize;
-            Addrs { data: d, hdr: d, len: 0, slice: d, as_ptr: Arc::as_ptr(a) as *const u8 as usize, heap_ptr: a.heap_ptr() as usize, data_align: 1, has_len: false, hdr_align: 1, slice_align: 1 }
+            Addrs { data: d, hdr: d, len: 0, slice: d, as_ptr: Arc::as_ptr(a) as *const u8 as usize, heap_ptr: a.heap_ptr() as usize, data_align: 1, has_len: false, hdr_align: 1, slice_align: 1, has_hdr: false }
         }
     }
 }
@@ -352,7 +353,9 @@ fn run<H: Shape, T: Shape>(len: usize, ctor: u64, rel: u64) -> Vec<u64> {
     out[9] = (a.as_ptr.wrapping_sub(block)) as u64;
     out[10] = if a.heap_ptr == 0 { 0 } else { a.heap_ptr.wrapping_sub(block) as u64 };
     let ok = a.data % a.data_align == 0 && a.hdr % a.hdr_align == 0 && a.slice % a.slice_align == 0 && block % aalign == 0 && (!a.has_len || a.len % 8 == 0);
-    out[11] = ok as u64;
+    // the header the handle shows is the one the constructor was given (H::make(9): every byte is 9)
+    let hdr_ok = !a.has_hdr || unsafe { std::slice::from_raw_parts(a.hdr as *const u8, H::SIZE) }.iter().all(|b| *b == 9);
+    out[11] = if !ok { 0 } else if !hdr_ok { 2 } else { 1 };
     // release
     talloc::record(true);
     let r2 = catch_unwind(AssertUnwindSafe(|| release(held, rel)));
